@@ -28,12 +28,12 @@ def run(out, tier, seed):
     ncases = 0
     parts = []
     with open(cases, "w") as f:
-        for cfg in (["MC_Programs_host4", "MC_Programs_q3"] if tier == "quick" else ["MC_Programs_host5", "MC_Programs_t3"]):
+        for cfg in (["MC_Programs_host4", "MC_Programs_q3", "MC_Programs_ticks4"] if tier == "quick" else ["MC_Programs_host5", "MC_Programs_t3", "MC_Programs_ticks5"]):
             pp = os.path.join(wd, cfg + ".ndjson")
             n = progs.generate_programs(out, cfg, pp, timeout=3000)
             parts.append("%s=%d" % (cfg, n))
             for p in vlib.read_ndjson(pp):
-                if not any(l in ("ida", "idb", "idc") for l in p["ast"]):
+                if not any(l in ("ida", "idb", "idc", "pfa", "pfb", "sfa", "ifa") for l in p["ast"]):
                     continue
                 src = progs.render(p["toks"])
                 for host, stores in ((H_NONE, "both"), (H_SOME, "both"), (H_ALL, "both"), (H_EXT, "basic")):
